@@ -562,7 +562,16 @@ func run(c *lib.Ctx) {
 			if sc.failing() {
 				// Save 1 failed: the stored file must be unchanged.
 				c.Count("failing_save_scenarios", 1)
-				if !bytes.Equal(rec.versions[1], rec.versions[0]) {
+				limit := -1
+				switch sc.Fault {
+				case "fsize-half":
+					limit = sc.Size / 2
+				case "fsize-last":
+					limit = sc.Size - 1
+				}
+				if limit >= 0 && len(rec.versions[1]) > limit && !bytes.Equal(rec.versions[1], rec.versions[0]) {
+					c.EngineError(fmt.Sprintf("%s: the file has %d bytes after save 1 although no file could grow beyond %d: the fault did not take effect", sc.id(), len(rec.versions[1]), limit))
+				} else if !bytes.Equal(rec.versions[1], rec.versions[0]) {
 					cs := caseC{Scenario: sc, Mode: "final", Observed: "changed-by-failed-save", Allowed: "v0"}
 					what := "a refresh whose download broke half-way"
 					if sc.Fault != "" {
